@@ -377,8 +377,130 @@ def stepping_worker(args):
     return res
 
 
+# ---- iteration through the VM's discovery instructions while the directory changes --------------
+def vm_iteration_worker(args):
+    """disc/dnext (lights, groups, locations) and discm/dnextm (members) as the VM executes them, with an
+    arbitrary directory change (new discovery or expiry) between any two steps."""
+    from bardolph.vm.call_stack import CallStack
+    from bardolph.vm.machine import Registers
+    from bardolph.vm.vm_codes import Operand
+    from bardolph.vm.vm_discover import VmDiscover
+    res = report.WorkResult('vm iteration %s' % (args['what'],))
+    world.start_function_trace()
+    res.sites.add('vm-iteration')
+    names = ('a', 'B', 'c')
+    snaps = list(snapshots(names))
+    what = args['what']
+    rng = random.Random(args['seed'])
+    starts = rng.sample(snaps, args['starts'])
+
+    def harness(ctx):
+        start = starts[ctx.choose(len(starts), 'start')]
+        forward = ctx.choose(2, 'direction') == 1
+        net = world.configure((), extra_settings={'light_gc_time': MAX_AGE}, discover=False)
+        saved = light_mod.time
+        vt = VTime(0.0)
+        light_mod.time = vt
+        try:
+            ls = net.light_set
+            set_population(net, start)
+            ls.discover()
+            reg = Registers()
+            reg.disc_forward = forward
+            vd = VmDiscover(CallStack(), reg)
+            member_of = None
+            if what == 'lights':
+                reg.operand = Operand.LIGHT
+            elif what in ('groups', 'locations'):
+                reg.operand = Operand.GROUP if what == 'groups' else Operand.LOCATION
+            else:
+                reg.operand = Operand.GROUP if what == 'group-members' else Operand.LOCATION
+                member_of = GROUPS[0] if what == 'group-members' else LOCS[0]
+
+            def universe():
+                if what == 'lights':
+                    return list(ls.get_light_names())
+                if what == 'groups':
+                    return list(ls.get_group_names())
+                if what == 'locations':
+                    return list(ls.get_location_names())
+                m = ls.get_group_lights(member_of) if what == 'group-members' else ls.get_location_lights(member_of)
+                return list(m or [])
+            visited = []
+            ever_removed = set()
+            initial = set(universe())
+            problems = []
+            try:
+                vd.discm(member_of) if member_of else vd.disc()
+                steps = 0
+                while reg.result is not Operand.NULL and reg.result is not None:
+                    cur = reg.result
+                    visited.append(cur)
+                    steps += 1
+                    if steps > 8:
+                        problems.append('iteration does not terminate: %r' % (visited,))
+                        break
+                    if cur not in universe() and cur not in ever_removed and cur not in initial:
+                        problems.append('iteration delivered %r, which the directory never listed' % (cur,))
+                    # an arbitrary change of the directory between two steps (or none)
+                    k = ctx.choose(3, 'change')
+                    if k == 1:
+                        before = set(universe())
+                        set_population(net, snaps[ctx.choose(len(snaps), 'new-population')])
+                        vt.now += 1000
+                        ls.refresh()
+                        ever_removed |= before - set(universe())
+                    elif k == 2:
+                        before = set(universe())
+                        vt.now += 1000
+                        ls.refresh()
+                        ever_removed |= before - set(universe())
+                    reg.operand = reg.operand
+                    vd.dnextm(member_of, cur) if member_of else vd.dnext(cur)
+            except Exception as ex:
+                problems.append('%s: %s during the iteration (visited %r)' % (type(ex).__name__, ex, visited))
+            if not problems:
+                if len(set(visited)) != len(visited):
+                    problems.append('a name was visited twice: %r' % (visited,))
+                order_ok = visited == sorted(visited, reverse=not forward)
+                if not order_ok:
+                    problems.append('names not visited in order: %r' % (visited,))
+                missing = [n for n in initial if n not in ever_removed and n in universe() and n not in visited]
+                if missing:
+                    problems.append('remaining name(s) %r never visited (visited %r)' % (missing, visited))
+            return problems, start, forward
+        finally:
+            light_mod.time = saved
+    seen = {}
+    for ctx, out in symx.explore(harness, max_paths=args['max_paths'], timeout_ms=1000, stats=res.stats, deadline=time.time() + args['budget_s']):
+        if isinstance(out, symx.Abort):
+            res.out_of_bound += 1
+            continue
+        problems, start, forward = out
+        res.nontrivial += 1
+        res.reached.add('vm-iteration')
+        if problems:
+            key = problems[0].split(':')[0][:50]
+            if key not in seen:
+                seen[key] = (problems[0], start, forward, [a for a, _ in ctx.trail])
+    for key, (msg, start, forward, trail) in seen.items():
+        rctx = symx.Ctx(prefix=trail, stats=symx.Stats())
+        symx.Ctx.cur = rctx
+        try:
+            p2 = harness(rctx)[0]
+        finally:
+            symx.Ctx.cur = None
+        res.violation('vm-iteration|%s|%s' % (what, key), '%s\n  iterating %s %s from population %s; replay: %s'
+                      % (msg, what, 'forward' if forward else 'backward', start, p2[:1]), inputs={'what': what, 'start': start, 'choices': trail}, replayed=bool(p2))
+    if not symx.explore.last_exhaustive:
+        res.exhaustive = False
+    res.sample({'iterating': what, 'start_populations': len(starts)})
+    res.functions = world.functions_seen()
+    return res
+
+
 def dispatch(args):
-    return {'directory': directory_worker, 'history': history_worker, 'stepping': stepping_worker}[args['kind']](args)
+    return {'directory': directory_worker, 'history': history_worker, 'stepping': stepping_worker, 'vm-iteration': vm_iteration_worker}[args['kind']](args)
 
 
 def run(tier, seed):
@@ -399,6 +521,9 @@ def run(tier, seed):
         for pre in snaps4:
             items.append({'kind': 'directory', 'names': names4, 'pre': pre, 'posts': rng.sample(snaps4, 100)})
         items += [{'kind': 'history', 'names': names4, 'seed': seed * 100 + i, 'count': 80, 'length': 12} for i in range(160)]
+    for what in ('lights', 'groups', 'locations', 'group-members', 'location-members'):
+        items.append({'kind': 'vm-iteration', 'what': what, 'seed': seed, 'starts': 6 if tier == 'quick' else 40,
+                      'max_paths': 6000 if tier == 'quick' else 300000, 'budget_s': 25 if tier == 'quick' else 400})
     results, skipped = report.run_pool(dispatch, items, budget_s=common.tier_budget(tier, 70, 900))
     return report.finish(
         PROP, tier, seed, 'exploration', results, skipped,
@@ -407,7 +532,8 @@ def run(tier, seed):
              'the public getters are compared with a model (names sorted/duplicate-free, each light in exactly its last reported group and location, member lists sorted '
              'and non-empty, set names = non-empty sets, exactly the lights older than the limit expired); (2) explicit seeded histories of 6 (quick) / 12 (thorough) steps '
              'with symbolic time advances; (3) SortedList first/last/next/prev/has/add/remove on 0..4(5) symbolic strictly ordered elements and a symbolic probe, and next() '
-             'iteration under arbitrary interleaved removals',
+             'iteration under arbitrary interleaved removals; (4) the VM\'s discovery instructions (disc/dnext over lights, groups, locations; discm/dnextm over members) '
+             'with an arbitrary new discovery or expiry between any two steps: no exception, termination, order, every remaining name visited once',
         assumptions=['time.time in bardolph.controller.light is a stub returning the harness clock (symbolic instants)',
                      'populations over 3 (quick; thorough also 4) names x 2 groups x 2 locations; snapshots delivered by the stub LifxLAN',
                      'an invariant-satisfying directory is determined by its population, so one discover from the empty directory reaches every such pre-state'],
